@@ -14,6 +14,7 @@ from .flow import short
 MAX_BLOCKS = 1200
 MAX_DEPTH = 3
 _pinned = None
+_pinned_closures = None
 
 
 def pinned():
@@ -24,6 +25,8 @@ def pinned():
             with open(path) as fh:
                 j = json.load(fh)
             _pinned = (set(j["fns"]), set(j["consts"]))
+            global _pinned_closures
+            _pinned_closures = set(j["closures"]) if "closures" in j else None
         except Exception:
             _pinned = (None, None)
     return _pinned
@@ -240,7 +243,11 @@ def inline_crate(crate_j):
     by_key = {b["key"]: b for b in crate_j["bodies"]}
     candidates = {}
     async_candidates = {}
+    OPAQUE_TRAITS = (" as std::cmp::", " as core::cmp::", " as std::clone::Clone>", " as core::clone::Clone>", " as std::fmt::", " as core::fmt::",
+                     " as std::hash::", " as core::hash::", " as std::default::Default>", " as core::default::Default>")
     for b in crate_j["bodies"]:
+        if any(x in b["name"] for x in OPAQUE_TRAITS):
+            continue    # (derived) comparison / clone / formatting impls of new types stay calls, like their std counterparts
         if b["kind"] in ("Fn", "AssocFn") and short(b["name"]) not in fns and len(b["blocks"]) <= MAX_BLOCKS:
             if not _is_async(b):
                 candidates[b["key"]] = b
@@ -253,8 +260,16 @@ def inline_crate(crate_j):
                         and len(co["blocks"]) <= MAX_BLOCKS and \
                         all(("move" in o or "copy" in o) and not (o.get("move") or o.get("copy"))["p"] for o in st[0]["rv"]["ops"]):
                     async_candidates[b["key"]] = (b, co)
-    if not candidates and not async_candidates:
+    # closure literals that do not exist on the pinned tree and are called directly (`(|| body)()`, what `#[instrument(ret)]`
+    # wraps a function body in): merged like helpers. The closure takes (env, args...) while the call passes (env, (args,)).
+    closure_candidates = {}
+    if _pinned_closures is not None:
+        for b in crate_j["bodies"]:
+            if b["kind"] == "Closure" and not b.get("coroutine") and b["key"] not in _pinned_closures and len(b["blocks"]) <= MAX_BLOCKS:
+                closure_candidates[b["key"]] = b
+    if not candidates and not async_candidates and not closure_candidates:
         return 0
+    closure_originals = {k: copy.deepcopy(v) for k, v in closure_candidates.items()}
     originals = {k: copy.deepcopy(v) for k, v in candidates.items()}
     async_originals = {k: (copy.deepcopy(f), copy.deepcopy(c)) for k, (f, c) in async_candidates.items()}
     n = 0
@@ -277,6 +292,45 @@ def inline_crate(crate_j):
                             if by_key.get(kk) is not None:
                                 by_key[kk]["inlined_into_callers"] = True
                         body.setdefault("inlined", []).append(short(async_originals[ck][0]["name"]))
+                        n += 1
+                elif ck in closure_originals and ck != body["key"] and d < MAX_DEPTH and t.get("target") is not None \
+                        and short(fn.get("def", "")).split("::")[-1] in ("call", "call_mut", "call_once") and len(t["args"]) == 2:
+                    callee = closure_originals[ck]
+                    off = len(body["locals"])
+                    boff = len(body["blocks"])
+                    body["locals"].extend(copy.deepcopy(callee["locals"]))
+                    meta = {"loc": t.get("loc", "")}
+                    if "x" in t:
+                        meta["x"] = t["x"]
+                        meta["cs"] = t.get("cs")
+                    st = {"s": "assign", "place": {"l": off + 1, "p": []}, "rv": {"k": "use", "op": t["args"][0]}}
+                    st.update(meta)
+                    blk["stmts"].append(st)
+                    tup = t["args"][1]
+                    tp = tup.get("move") or tup.get("copy")
+                    okc = True
+                    for ai in range(2, callee["arg_count"] + 1):
+                        if tp is None:
+                            okc = False
+                            break
+                        fld = {"l": tp["l"], "p": list(tp["p"]) + [{"f": ai - 2, "n": str(ai - 2), "ty": callee["locals"][ai].get("s", "")}]}
+                        st = {"s": "assign", "place": {"l": off + ai, "p": []}, "rv": {"k": "use", "op": {"move": fld}}}
+                        st.update(meta)
+                        blk["stmts"].append(st)
+                    if okc:
+                        for dv in callee["debug"]:
+                            if "place" in dv:
+                                body["debug"].append({"name": dv["name"], "place": _renum_place(dv["place"], off)})
+                        for cb in callee["blocks"]:
+                            body["blocks"].append(_renum_block(cb, off, boff, t["dest"], t["target"], meta))
+                        for j in range(boff, len(body["blocks"])):
+                            depth_of_block[j] = d + 1
+                        g = {"t": "goto", "target": boff}
+                        g.update(meta)
+                        blk["term"] = g
+                        body.setdefault("inlined", []).append(short(callee["name"]))
+                        if by_key.get(ck) is not None:
+                            by_key[ck]["inlined_into_callers"] = True
                         n += 1
                 elif ck in originals and ck != body["key"] and d < MAX_DEPTH and t.get("target") is not None:
                     callee = originals[ck]
